@@ -231,7 +231,11 @@ pub fn catch<R>(f: impl FnOnce() -> R) -> Result<R, String> {
 pub fn panic_site(msg: &str) -> String {
     let site = msg.rsplit(" @ ").next().unwrap_or("?");
     // make it stable regardless of where /repo lives
-    site.trim_start_matches("/repo/").to_string()
+    // (also for a scratch worktree of the repository, e.g. /tmp/isorun/repo/...)
+    match site.find("/repo/") {
+        Some(i) => site[i + "/repo/".len()..].to_string(),
+        None => site.to_string(),
+    }
 }
 
 // ---------------------------------------------------------------------------------------------
